@@ -353,6 +353,19 @@ def _names(e, skip=()):
     return out
 
 
+def _key_names(e):
+    """names whose *value* the key expression covers: a name that only occurs through a projection that forgets most of the value
+    (x.shape, x.size, x.ndim, x.dtype, len(x), type(x)) does not count - `cache[Q.shape[0]]` does not distinguish two different Q."""
+    weak = set()
+    for n in ast.walk(e):
+        if isinstance(n, ast.Attribute) and n.attr in ("shape", "size", "ndim", "dtype", "nbytes") and isinstance(n.value, ast.Name): weak.add(id(n.value))
+        if isinstance(n, ast.Call) and isinstance(n.func, ast.Name) and n.func.id in ("len", "type") and len(n.args) == 1 and isinstance(n.args[0], ast.Name): weak.add(id(n.args[0]))
+    out = set()
+    for n in ast.walk(e):
+        if isinstance(n, ast.Name) and isinstance(n.ctx, ast.Load) and id(n) not in weak: out.add(n.id)
+    return out
+
+
 def _called_names(e):
     out = set()
     for n in ast.walk(e):
@@ -485,10 +498,10 @@ def check_cache_keys(ctx, rule="R5-cache-key", about=None):
                 if not probed: continue
                 found += 1
                 keyexpr = t.slice
-                knames = _names(keyexpr)
+                knames = _key_names(keyexpr)
                 for kn in list(knames):
                     for v, _, _ in info.defs.get(kn, []):
-                        if kn not in info.params: knames |= _names(v)
+                        if kn not in info.params: knames |= _key_names(v)
                 deps = info.slice_deps(value, stop={cname} | MODULE_NAMES)
                 deps -= MODULE_NAMES
                 deps = {d for d in deps if not (d in module_dicts)}
